@@ -22,7 +22,7 @@ LEVEL_TEXT = (
     "all histories up to the depth bound over 16 operations from 3 initial states are executed on the "
     "real object; the archive's SHA-256 is compared after every step and after the session"
 )
-LEVEL_NOTE = "bounded depth (quick 3, thorough 4); one archive content; trusted: hashlib, the op classification (mutating / not)"
+LEVEL_NOTE = "bounded depth (quick 3, thorough 5); one archive content; trusted: hashlib, the op classification (mutating / not)"
 FLOOR_NONTRIVIAL = 30
 
 EP0 = (9.0, 4)
@@ -167,7 +167,7 @@ def evaluate(case):
 
 
 def run(ctx):
-    depth = 4 if ctx.thorough() else 3
+    depth = 5 if ctx.thorough() else 3
     for init in INITS:
         hist.bfs(ctx, OPS, evaluate, depth, init_key=f"<{init}>", extra_case={"init": init})
     ctx.rule = (
